@@ -92,6 +92,10 @@ pub fn hex64(v: u64) -> Value {
 
 /// Execute one case on a fresh OS thread with pinned hash keys.
 pub fn execute_case(case: &Value, scratch: &str) -> Outcome {
+    // memory: a case on one of the large corpus files holds several copies of a model of some hundred
+    // thousand cells (gigabytes); such cases run one at a time, the others around them (taken before the
+    // watchdog starts: waiting is not hanging)
+    let _heavy = if is_heavy(case) { Some(HEAVY.lock().unwrap_or_else(|e| e.into_inner())) } else { None };
     let hash_seed = get_u64(case, "hash_seed");
     let case2 = case.clone();
     let scratch2 = scratch.to_string();
@@ -139,6 +143,16 @@ pub fn execute_case(case: &Value, scratch: &str) -> Outcome {
         Ok(o) => o,
         Err(_) => Outcome { harness_error: Some("run thread died".into()), ..Default::default() },
     }
+}
+
+static HEAVY: std::sync::Mutex<()> = std::sync::Mutex::new(());
+
+fn is_heavy(case: &Value) -> bool {
+    if case["source"]["kind"] != "corpus" {
+        return false;
+    }
+    let f = case["source"]["file"].as_str().unwrap_or("");
+    std::fs::metadata(format!("{}/{}", crate::c11::corpus_dir(), f)).map(|m| m.len() > 400_000).unwrap_or(false)
 }
 
 /// executions reaped as hangs so far (two are enough: the batch stops taking new runs)
